@@ -248,6 +248,7 @@ func cmdCheck(args []string) int {
 		return 0
 	}
 	for _, o := range failed {
+		e.Replay(o, outDir)
 		path := e.WriteReplay(prop, o, outDir)
 		suffix := ""
 		if !o.Replayed {
@@ -296,6 +297,7 @@ func (e *Engine) WriteReplay(prop string, o *Obligation, outDir string) string {
 	path := filepath.Join(dir, strings.TrimSuffix(o.fileName(), ".smt2")+".json")
 	rep := map[string]interface{}{
 		"property":      prop,
+		"function":      o.Func,
 		"obligation":    o.Name,
 		"kind":          o.Kind,
 		"position":      o.Pos,
@@ -350,10 +352,5 @@ func cmdReplay(args []string) int {
 	}
 	fmt.Println("no executable replay recorded for this obligation (no-failing-input-found); solver output:")
 	fmt.Println(rep["solver_output"])
-	return 1
-}
-
-func runReplayTest(rep map[string]interface{}, test string) int {
-	fmt.Println("replay test not executable in this build")
 	return 1
 }
